@@ -31,7 +31,13 @@ Types == <<
   Tup(<<U8>>), Tup(<<U8, U16>>), Tup(<<U8, U32, BOOL>>), Tup(<<U16, U64T, U128, USIZE>>), Tup(<<BOOL, U8, U16, U32, U64T>>),
   Tup(<<U8, BOOL, STR, USIZE, U16, U128>>),
   Tup(<<Vec(U8), STR>>), Tup(<<Opt(U16), Arr(2, U8)>>), Tup(<<SetT(U8), MapT(U8, U8), BOOL>>), Tup(<<Vec(BOOL), Opt(BOOL), U8, USIZE>>),
-  Tup(<<STR, STR, Vec(STR)>>), Tup(<<U8, BOOL, STR, USIZE, Opt(U8), Vec(U8)>>), Tup(<<UNIT, U8>>), Tup(<<USIZE, USIZE>>)
+  Tup(<<STR, STR, Vec(STR)>>), Tup(<<U8, BOOL, STR, USIZE, Opt(U8), Vec(U8)>>), Tup(<<UNIT, U8>>), Tup(<<USIZE, USIZE>>),
+  \* types whose elements encode to ZERO bytes (a collection of them may end exactly at the end of the
+  \* input although elements remain to be "read"), alone, nested one level, and before / after other data
+  Opt(UNIT), Vec(UNIT), Arr(4, UNIT), Arr(0, U16), Vec(Arr(0, U16)), SetT(UNIT), MapT(UNIT, Arr(0, U8)), Vec(Tup(<<UNIT, UNIT>>)),
+  Vec(Arr(2, UNIT)), Vec(Vec(UNIT)), Opt(Vec(UNIT)), Arr(2, Vec(UNIT)), MapT(U8, Vec(UNIT)), Vec(Opt(UNIT)),
+  Tup(<<U8, Vec(UNIT)>>), Tup(<<Vec(UNIT), U8>>), Tup(<<UNIT, Vec(UNIT), UNIT>>), Tup(<<Vec(UNIT), U128>>),
+  Tup(<<U8, Arr(4, UNIT)>>), Tup(<<Arr(4, UNIT), U8>>), Tup(<<SetT(UNIT), MapT(UNIT, Arr(0, U8))>>), Tup(<<U16, UNIT>>)
 >>
 NT == Len(Types)
 
@@ -82,6 +88,14 @@ RawCases ==
         RawOf(MapT(U8, U16), <<5, 1, 10, 0, 1, 10, 0>>), RawOf(MapT(BOOL, U32), <<5, 1, 1, 0, 0, 0, 0, 2, 0, 0, 0>>),
         RawOf(MapT(BOOL, U32), <<5, 1, 1, 0, 0, 0, 2, 2, 0, 0, 0>>), RawOf(SetT(Tup(<<U8, U8>>)), <<5, 2, 1, 1, 2>>),
         RawOf(SetT(Vec(U8)), <<5, 5, 1, 2, 3, 1>>), RawOf(SetT(Opt(U8)), <<7, 1, 0, 0, 1, 0>>),
+        \* several elements of a zero-sized type (sets / maps cannot produce these themselves), collection last
+        \* in the input and followed by other data; non-minimal prefixes; counts 0..1024 and just above ZstMax
+        RawOf(SetT(UNIT), <<7>>), RawOf(SetT(UNIT), <<7, 9>>), RawOf(MapT(UNIT, Arr(0, U8)), <<7>>), RawOf(MapT(UNIT, Arr(0, U8)), <<11, 1>>),
+        RawOf(Vec(UNIT), <<255>>), RawOf(Vec(UNIT), <<255, 255>>), RawOf(Vec(UNIT), <<14, 0>>), RawOf(Vec(UNIT), <<2, 16>>),
+        RawOf(Vec(UNIT), <<6, 16>>), RawOf(Vec(UNIT), <<0, 5, 0, 0, 0, 0, 0, 0, 0>>), RawOf(Vec(UNIT), <<0, 5, 0, 0, 0, 0, 0, 0>>),
+        RawOf(Vec(Arr(0, U16)), <<9>>), RawOf(Vec(Vec(UNIT)), <<5, 7, 9>>), RawOf(Vec(Vec(UNIT)), <<5, 7>>),
+        RawOf(Tup(<<U8, Vec(UNIT)>>), <<5, 7>>), RawOf(Tup(<<Vec(UNIT), U8>>), <<7, 5>>), RawOf(Tup(<<Vec(UNIT), U8>>), <<7>>),
+        RawOf(Tup(<<SetT(UNIT), MapT(UNIT, Arr(0, U8))>>), <<7, 5>>), RawOf(Opt(Vec(UNIT)), <<1, 9>>), RawOf(Vec(Opt(UNIT)), <<5, 1, 0>>),
         \* length prefixes far beyond the input: 2^63, 2^61 (x 8 bytes), 2^64-1, 2^40, 2^32, 2^30, 2^21
         RawOf(Vec(U8), <<0, 0, 0, 0, 0, 0, 0, 0, 128, 1, 2>>), RawOf(Vec(U64T), <<0, 0, 0, 0, 0, 0, 0, 0, 32, 1, 2>>),
         RawOf(STR, <<0, 255, 255, 255, 255, 255, 255, 255, 255, 97>>), RawOf(Vec(U8), <<0, 0, 0, 0, 0, 0, 1, 0, 0, 1, 2>>),
@@ -117,7 +131,7 @@ InputOf(s) ==
     [] s.m = "corrupt" -> [s.enc EXCEPT ![s.p] = s.b] \o tail
 
 FlSeq(fl) == (IF "big" \in fl THEN <<"big">> ELSE <<>>) \o (IF "short" \in fl THEN <<"short">> ELSE <<>>)
-             \o (IF "dup" \in fl THEN <<"dup">> ELSE <<>>)
+             \o (IF "dup" \in fl THEN <<"dup">> ELSE <<>>) \o (IF "zst-huge" \in fl THEN <<"zst-huge">> ELSE <<>>)
 
 Scenario(s) ==
   LET ty == TypeOf(s)
@@ -133,7 +147,12 @@ Scenario(s) ==
       exp |-> [t |-> vd.t, n |-> vd.n, val |-> vd.val, kinds |-> vd.kinds],
       fl |-> FlSeq(vd.fl)]
 
-Emit == PrintT(<<"REPLAY", ToJson(Scenario(c))>>)
+\* cases announcing more than ZstMax zero-sized elements are outside the generated space (the real decoder
+\* would iterate that many times; whether that is acceptable is not C26's business)
+Emit == LET sc == Scenario(c) IN
+        IF \E i \in 1..Len(sc.fl) : sc.fl[i] = "zst-huge"
+          THEN PrintT(<<"EXCLUDED", ToJson([ty |-> sc.ty, input |-> sc.input])>>)
+          ELSE PrintT(<<"REPLAY", ToJson(sc)>>)
 
 (***************************************************************************)
 (* Design-level laws of the specification itself                           *)
@@ -148,12 +167,10 @@ Laws ==
                       /\ vd.n = Len(c.enc)                       \* consumes exactly the encoding
                       /\ vd.val = c.v                            \* decodes to the same value
                       /\ vd.fl \subseteq {}
-     /\ c.m = "trunc" => vd.t = "err" /\ vd.kinds[1] = "eof"     \* encodings are prefix-free
+     /\ (c.m = "trunc" /\ "zst-huge" \notin vd.fl) => vd.t = "err" /\ vd.kinds[1] = "eof"     \* encodings are prefix-free
      /\ ty[1] = "string" => Utf8Law(InputOf(c))
      /\ ("short" \in vd.fl \/ "big" \in vd.fl) => vd.t = "err"
 
-\* no collection of zero-sized elements in the menu (an unbounded count would never end)
-ASSUME \A ti \in 1..NT : Types[ti][1] \in {"vec", "set", "map"} => MinSize(ElemTy(Types[ti], 1)) > 0
 LongQuick    == <<127, 128>>
 LongThorough == <<127, 128, 129, 300, 1000>>
 
